@@ -103,6 +103,18 @@ template <> struct PL<P_A32> { typedef PlA32 type; enum { VSIZE = 16 };
 	static type unpack(const uint8_t* b) { type p; memcpy(&p.a[0], b, 8); memcpy(&p.a[1], b + 8, 8); return p; }
 	static void pack(const type& p, uint8_t* b) { memcpy(b, &p.a[0], 8); memcpy(b + 8, &p.a[1], 8); } };
 
+// a payload larger than 255 bytes: the canonical value is 32 bytes, expanded over 300; a byte that does not arrive
+// shows as a complemented value
+struct PlG300 { uint8_t b[300]; };
+template <> struct PL<P_G300> { typedef PlG300 type; enum { VSIZE = 32 };
+	static uint8_t at(const uint8_t* v, unsigned i) { return static_cast<uint8_t>(v[i % 32] + 37u * (i / 32)); }
+	static type unpack(const uint8_t* b) { type p; for (unsigned i = 0; i < 300; ++i) p.b[i] = at(b, i); return p; }
+	static void pack(const type& p, uint8_t* b) {
+		bool ok = true;
+		for (unsigned i = 32; i < 300; ++i) if (p.b[i] != at(p.b, i)) ok = false;
+		for (unsigned i = 0; i < 32; ++i) b[i] = ok ? p.b[i] : static_cast<uint8_t>(~p.b[i]);
+	} };
+
 typedef PL<SUT_PAYLOAD_KIND> PLK;
 typedef PLK::type Payload;
 #define SUT_HAS_PAYLOAD (SUT_PAYLOAD_KIND != 0)
@@ -305,6 +317,7 @@ void fill_common(SutView& v, const C& c) {
 	for (unsigned i = 0; i < SUT_N; ++i)
 		if (c.isActive(static_cast<ffsm2::StateID>(i)))
 			v.active[i >> 3] = static_cast<uint8_t>(v.active[i >> 3] | (1u << (i & 7)));
+	v.active_invalid = c.isActive(ffsm2::INVALID_STATE_ID) ? 1 : 0;
 #if SF_HISTORY
 	read_trans(v.previous, c.previousTransitions());
 	v.has_previous = 1;
@@ -327,6 +340,9 @@ void fill_plan_level(SutView& v, C& c) {       // PlanControl and up
 		auto p = c.plan();                 // mutable Plan
 		read_plan<false>(g_plan_tmp, p);
 		v.plan_m_same = same_plan(g_plan_tmp, v.plan) ? 1 : 0;
+		const auto& kp = p;                // the same Plan through a const reference: its own iterator type
+		read_plan<false>(g_plan_tmp, kp);
+		if (!same_plan(g_plan_tmp, v.plan)) v.plan_m_same = 0;
 	}
 #endif
 }
@@ -546,6 +562,25 @@ void run_hook(C& c, int method, int cls, int inj, const void* self,
 	void exitGuard (GuardControl& c) { run_hook<CF_GUARD>(c, M_EXIT_GUARD,  CLS, INJ, this, SUT_INVALID, 0, 0, TMPL(c), ++hits_); }  \
 	void exit      (PlanControl&  c) noexcept { run_hook<CF_PLAN >(c, M_EXIT,        CLS, INJ, this, SUT_INVALID, 0, 0, TMPL(c), ++hits_); }
 
+// for classes derived from injections: the react family as non-template overloads (they override the injections'
+// virtual ones, so a virtual call from the engine would land here twice)
+#define SUT_REACT_NT(E, CLS, INJ, TMPL)                                                                                 \
+	void preReact (const E& e, FullControl& c) { run_hook<CF_FULL>(c, M_PRE_REACT,  CLS, INJ, this, EvId<E>::ID, e.v, &e, TMPL(c), ++hits_); } \
+	void react    (const E& e, FullControl& c) { run_hook<CF_FULL>(c, M_REACT,      CLS, INJ, this, EvId<E>::ID, e.v, &e, TMPL(c), ++hits_); } \
+	void postReact(const E& e, FullControl& c) { run_hook<CF_FULL>(c, M_POST_REACT, CLS, INJ, this, EvId<E>::ID, e.v, &e, TMPL(c), ++hits_); } \
+	void query(E& e, ConstControl& c) const    { run_hook<CF_CONST>(c, M_QUERY,     CLS, INJ, this, EvId<E>::ID, e.v, &e, TMPL(c), ++hits_); }
+#define SUT_CALLBACKS_NT(CLS, INJ, TMPL)                                                                                \
+	mutable uint32_t hits_ = 0;                                                                                        \
+	void entryGuard(GuardControl& c) noexcept { run_hook<CF_GUARD>(c, M_ENTRY_GUARD, CLS, INJ, this, SUT_INVALID, 0, 0, TMPL(c), ++hits_); }  \
+	void enter     (PlanControl&  c) noexcept { run_hook<CF_PLAN >(c, M_ENTER,       CLS, INJ, this, SUT_INVALID, 0, 0, TMPL(c), ++hits_); }  \
+	void reenter   (PlanControl&  c) { run_hook<CF_PLAN >(c, M_REENTER,     CLS, INJ, this, SUT_INVALID, 0, 0, TMPL(c), ++hits_); }  \
+	void preUpdate (FullControl&  c) { run_hook<CF_FULL >(c, M_PRE_UPDATE,  CLS, INJ, this, SUT_INVALID, 0, 0, TMPL(c), ++hits_); }  \
+	void update    (FullControl&  c) noexcept { run_hook<CF_FULL >(c, M_UPDATE,      CLS, INJ, this, SUT_INVALID, 0, 0, TMPL(c), ++hits_); }  \
+	void postUpdate(FullControl&  c) noexcept { run_hook<CF_FULL >(c, M_POST_UPDATE, CLS, INJ, this, SUT_INVALID, 0, 0, TMPL(c), ++hits_); }  \
+	SUT_REACT_NT(Ev0, CLS, INJ, TMPL) SUT_REACT_NT(Ev1, CLS, INJ, TMPL) SUT_REACT_NT(Ev2, CLS, INJ, TMPL)               \
+	void exitGuard (GuardControl& c) { run_hook<CF_GUARD>(c, M_EXIT_GUARD,  CLS, INJ, this, SUT_INVALID, 0, 0, TMPL(c), ++hits_); }  \
+	void exit      (PlanControl&  c) noexcept { run_hook<CF_PLAN >(c, M_EXIT,        CLS, INJ, this, SUT_INVALID, 0, 0, TMPL(c), ++hits_); }
+
 #define SUT_PLAN_CALLBACKS(CLS, INJ, TMPL)                                                                              \
 	void planSucceeded(FullControl& c) { run_hook<CF_FULL>(c, M_PLAN_SUCCEEDED, CLS, INJ, this, SUT_INVALID, 0, 0, TMPL(c), ++hits_); } \
 	void planFailed   (FullControl& c) { run_hook<CF_FULL>(c, M_PLAN_FAILED,    CLS, INJ, this, SUT_INVALID, 0, 0, TMPL(c), ++hits_); }
@@ -562,7 +597,6 @@ void run_hook(C& c, int method, int cls, int inj, const void* self,
 template <unsigned I, unsigned J>
 struct Inj : FSM::State {
 	mutable uint32_t hits_ = 0;
-	virtual ~Inj() {}
 	Inj() {}
 	Inj(const Inj& o) : FSM::State(o), hits_(o.hits_) {}
 	Inj& operator = (const Inj& o) { hits_ = o.hits_; return *this; }
@@ -572,10 +606,16 @@ struct Inj : FSM::State {
 	void preUpdate (typename FSM::FullControl&  c) { run_hook<CF_FULL >(c, M_PRE_UPDATE,  I, J, this, SUT_INVALID, 0, 0, 1, ++hits_); }
 	virtual void update    (typename FSM::FullControl&  c) noexcept { run_hook<CF_FULL >(c, M_UPDATE,      I, J, this, SUT_INVALID, 0, 0, 1, ++hits_); }
 	virtual void postUpdate(typename FSM::FullControl&  c) noexcept { run_hook<CF_FULL >(c, M_POST_UPDATE, I, J, this, SUT_INVALID, 0, 0, 1, ++hits_); }
-	template <typename E> void preReact (const E& e, typename FSM::FullControl& c) { run_hook<CF_FULL>(c, M_PRE_REACT,  I, J, this, EvId<E>::ID, e.v, &e, 1, ++hits_); }
-	template <typename E> void react    (const E& e, typename FSM::FullControl& c) { run_hook<CF_FULL>(c, M_REACT,      I, J, this, EvId<E>::ID, e.v, &e, 1, ++hits_); }
-	template <typename E> void postReact(const E& e, typename FSM::FullControl& c) { run_hook<CF_FULL>(c, M_POST_REACT, I, J, this, EvId<E>::ID, e.v, &e, 1, ++hits_); }
-	template <typename E> void query(E& e, typename FSM::ConstControl& c) const    { run_hook<CF_CONST>(c, M_QUERY,     I, J, this, EvId<E>::ID, e.v, &e, 1, ++hits_); }
+	// the react family as ordinary virtual overloads per event type plus the library's catch-all (the idiom a
+	// multi-event machine needs): the engine must pick these overloads, each exactly once, non-virtually
+	using FSM::State::preReact; using FSM::State::react; using FSM::State::postReact; using FSM::State::query;
+#define SUT_INJ_REACT(E) \
+	virtual void preReact (const E& e, typename FSM::FullControl& c) { run_hook<CF_FULL>(c, M_PRE_REACT,  I, J, this, EvId<E>::ID, e.v, &e, 1, ++hits_); } \
+	virtual void react    (const E& e, typename FSM::FullControl& c) { run_hook<CF_FULL>(c, M_REACT,      I, J, this, EvId<E>::ID, e.v, &e, 1, ++hits_); } \
+	virtual void postReact(const E& e, typename FSM::FullControl& c) { run_hook<CF_FULL>(c, M_POST_REACT, I, J, this, EvId<E>::ID, e.v, &e, 1, ++hits_); } \
+	virtual void query(E& e, typename FSM::ConstControl& c) const    { run_hook<CF_CONST>(c, M_QUERY,     I, J, this, EvId<E>::ID, e.v, &e, 1, ++hits_); }
+	SUT_INJ_REACT(Ev0) SUT_INJ_REACT(Ev1) SUT_INJ_REACT(Ev2)
+#undef SUT_INJ_REACT
 	void exitGuard (typename FSM::GuardControl& c) { run_hook<CF_GUARD>(c, M_EXIT_GUARD,  I, J, this, SUT_INVALID, 0, 0, 1, ++hits_); }
 	virtual void exit      (typename FSM::State::PlanControl&  c) noexcept { run_hook<CF_PLAN >(c, M_EXIT,        I, J, this, SUT_INVALID, 0, 0, 1, ++hits_); }
 };
@@ -591,17 +631,17 @@ template <unsigned I> struct StBase<I, K_BARE> : FSM::State {};
 template <unsigned I> struct StBase<I, K_INJ1> : FSM::StateT<Inj<I, 1> > {
 	typedef typename FSM::GuardControl GuardControl; typedef typename FSM::FullControl FullControl;
 	typedef typename FSM::State::PlanControl PlanControl; typedef typename FSM::ConstControl ConstControl;
-	SUT_CALLBACKS(I, 0, TMPL_STATE)
+	SUT_CALLBACKS_NT(I, 0, TMPL_STATE)
 };
 template <unsigned I> struct StBase<I, K_INJ2> : FSM::StateT<Inj<I, 1>, Inj<I, 2> > {
 	typedef typename FSM::GuardControl GuardControl; typedef typename FSM::FullControl FullControl;
 	typedef typename FSM::State::PlanControl PlanControl; typedef typename FSM::ConstControl ConstControl;
-	SUT_CALLBACKS(I, 0, TMPL_STATE)
+	SUT_CALLBACKS_NT(I, 0, TMPL_STATE)
 };
 template <unsigned I> struct StBase<I, K_INJ3> : FSM::StateT<Inj<I, 1>, Inj<I, 2>, Inj<I, 3> > {
 	typedef typename FSM::GuardControl GuardControl; typedef typename FSM::FullControl FullControl;
 	typedef typename FSM::State::PlanControl PlanControl; typedef typename FSM::ConstControl ConstControl;
-	SUT_CALLBACKS(I, 0, TMPL_STATE)
+	SUT_CALLBACKS_NT(I, 0, TMPL_STATE)
 };
 template <unsigned I> struct StBase<I, K_PARTIAL> : FSM::State {
 	mutable uint32_t hits_ = 0;
@@ -637,7 +677,7 @@ struct R : FSM::State {
 struct R : FSM::State {};
 #elif SUT_ROOT_KIND == 2
 struct R : FSM::StateT<Inj<SUT_INVALID, 1> > {
-	SUT_CALLBACKS(SUT_INVALID, 0, TMPL_ROOT)
+	SUT_CALLBACKS_NT(SUT_INVALID, 0, TMPL_ROOT)
 #if SF_PLANS
 	SUT_PLAN_CALLBACKS(SUT_INVALID, 0, TMPL_ROOT)
 #endif
@@ -686,8 +726,11 @@ static SimLogger g_logger;
 //------------------------------------------------------------------------------------------------
 // per-index dispatch tables
 
+static char g_access_mismatch;
 template <unsigned I> struct Tab {
-	static const void* access(Inst& m)          { return &m.access<St<I> >(); }
+	// the const overload must name the same object (bound to a reference first: a by-value return must not compile away)
+	static const void* access(Inst& m)          { const St<I>& r = static_cast<const Inst&>(m).template access<St<I> >();
+	                                              const void* a = &m.template access<St<I> >(); return static_cast<const void*>(&r) == a ? a : static_cast<const void*>(&g_access_mismatch); }
 	static int  is_active_tmpl(const Inst& m)   { return m.isActive<St<I> >() ? 1 : 0; }
 	static int  declared_id()                   { return FSM::stateId<St<I> >(); }
 };
@@ -941,7 +984,11 @@ int sut_plan_walk(void* inst, const uint8_t* mask, SutTask* out, int* out_count)
 	return 1;
 }
 int sut_plan_read(const void* inst, SutPlan* out)  { auto p = CI_(inst)->plan(); read_plan<true>(*out, p); return 1; }
-int sut_plan_read_m(void* inst, SutPlan* out)      { auto p = I_(inst)->plan();  read_plan<false>(*out, p); return 1; }
+int sut_plan_read_m(void* inst, SutPlan* out)      {
+	auto p = I_(inst)->plan();  read_plan<false>(*out, p);
+	const auto& kp = p; read_plan<false>(g_plan_tmp, kp);       // const Plan: must iterate the same tasks
+	if (!same_plan(g_plan_tmp, *out)) { *out = g_plan_tmp; out->nonempty = static_cast<uint8_t>(out->nonempty | 2); }
+	return 1; }
 #else
 int sut_succeed(void*, int) { return -1; }
 int sut_fail   (void*, int) { return -1; }
